@@ -74,3 +74,22 @@ package dawg
 //@   split db.d != nil | db.d == nil
 //@   ensures old(db.d) != nil && old(db.done) ==> result != nil && unmodified()
 //@   ensures old(db.d) != nil && old(db.lastWord) != nil && !lexLT(old(db.lastWord), old(b)) ==> result != nil && unmodified()
+
+// ---- searchers (C13): the pattern searcher's Step and Backstep are exact inverses on
+// its whole state, and its three observers are pure and exact.  (The anagram searcher
+// and Search itself are covered by the bounded stand-in and by the frame analysis.)
+//@ func (*PatternSearcher).Step
+//@   requires p.index < 4611686018427387904
+//@   modifies p
+//@   ensures p.index == old(p.index) + 1 && sameslice(p.pattern, old(p.pattern)) && p.blank == old(p.blank)
+//@ func (*PatternSearcher).Backstep
+//@   requires p.index > -4611686018427387904
+//@   modifies p
+//@   ensures p.index == old(p.index) - 1 && sameslice(p.pattern, old(p.pattern)) && p.blank == old(p.blank)
+//@ func (PatternSearcher).AllowStep
+//@   requires 0 <= p.index
+//@   ensures result <==> (p.index < len(p.pattern) && (p.pattern[p.index] == p.blank || p.pattern[p.index] == b))
+//@ func (PatternSearcher).AllowWord
+//@   ensures result <==> p.index == len(p.pattern)
+//@ func NewPatternSearcher
+//@   ensures fresh(result) && result.index == 0 && sameslice(result.pattern, pattern) && result.blank == blank
